@@ -13,7 +13,7 @@ theorem Sh.ranging_pastClose {x : Sh} (h : x.rangingPhase = true) : x.pastClose 
 /-- only control fields change: connections, map, Shutdown's pc / todo / active stay -/
 theorem good_ctl {s s' : S} (h : Good s) (hc : s'.conns = s.conns) (hm : s'.map = s.map) (hsh : s'.sh = s.sh)
     (htodo : s'.todo = s.todo) (hact : s'.active = s.active)
-    (hln : s.lnOpen = false → s'.lnOpen = false)
+    (hln : s.lnOpen = false → s'.lnOpen = false) (hlo : s.lnOpen = true → s'.lnOpen = true)
     (hrel : s.sh.pastQuit = true → (s.stop.isSome = true ∨ ∃ e, s.sv = .returned e) → (s'.stop.isSome = true ∨ ∃ e, s'.sv = .returned e))
     (hsv : s.sv ≠ .notStarted → s'.sv ≠ .notStarted)
     (hctx : s.ctxDone = true → s'.ctxDone = true)
@@ -24,6 +24,7 @@ theorem good_ctl {s s' : S} (h : Good s) (hc : s'.conns = s.conns) (hm : s'.map 
   · rw [hc, hm]; exact h.trk
   · rw [hc]; exact h.uniq
   · rw [hsh]; exact fun hp => hln (h.lnc hp)
+  · rw [hsh]; exact fun hp => hlo (h.lno hp)
   · rw [hsh]; exact fun hp => hrel hp (h.rel hp)
   · rw [hsh]; exact fun hp => hsv (h.svr hp)
   · rw [hsh, hact, hc]; exact h.infl
@@ -85,6 +86,7 @@ theorem good_push {s : S} {fd : Nat} (h : Good s) (hln : s.lnOpen = true) (hfree
     · exact absurd hfe.symm (hfree' e (List.mem_iff_getElem?.mpr ⟨k, he⟩) heo)
     · rw [hj, hk]
   · exact h.lnc
+  · exact h.lno
   · exact h.rel
   · exact h.svr
   · intro hr; simp only [S.push] at hr; rw [hnr] at hr; cases hr
@@ -129,7 +131,7 @@ theorem good_stepAccept {s s' : S} {b : Bool} {r : AccRes} (h : Good s)
     · cases hs
     · split at hs
       · cases hs
-        exact good_ctl h rfl rfl rfl rfl rfl (fun x => x) (fun _ x => x) (fun x => x) (fun x => x) (fun _ => Or.inl rfl)
+        exact good_ctl h rfl rfl rfl rfl rfl (fun x => x) (fun x => x) (fun _ x => x) (fun x => x) (fun x => x) (fun _ => Or.inl rfl)
       · cases hs; exact h
   | emfile =>
     simp only [stepAccept] at hs
@@ -141,14 +143,14 @@ theorem good_stepAccept {s s' : S} {b : Bool} {r : AccRes} (h : Good s)
         split at hs
         · cases hs
           rename_i he
-          refine good_ctl h e1 e2 e3 e4 e5 (by rw [e6]; exact fun x => x) (by rw [e7, e8]; exact fun _ x => x)
+          refine good_ctl h e1 e2 e3 e4 e5 (by rw [e6]; exact fun x => x) (by rw [e6]; exact fun x => x) (by rw [e7, e8]; exact fun _ x => x)
             (by rw [e8]; exact fun x => x) (by rw [e9]; exact fun x => x) ?_
           intro hr
           rw [e10] at hr
           rw [e15 he, e11, e12]
           exact h.resume hr
         · cases hs
-          refine good_ctl h e1 e2 e3 e4 e5 (by simp only [e6]; exact fun x => x) (by simp only [e7, e8]; exact fun _ x => x)
+          refine good_ctl h e1 e2 e3 e4 e5 (by simp only [e6]; exact fun x => x) (by simp only [e6]; exact fun x => x) (by simp only [e7, e8]; exact fun _ x => x)
             (by simp only [e8]; exact fun x => x) (by simp only [e9]; exact fun x => x) ?_
           intro _
           right; left; simp
@@ -160,7 +162,7 @@ theorem good_stepAccept {s s' : S} {b : Bool} {r : AccRes} (h : Good s)
       · cases hs
         obtain ⟨e1, e2, e3, e4, e5, e6, e7, e8, e9, e10, e11, e12, e13, e14, e15⟩ := detachLn_fields s
         refine good_ctl h (by simp [S.quit, e1]) (by simp [S.quit, e2]) (by simp [S.quit, e3]) (by simp [S.quit, e4])
-          (by simp [S.quit, e5]) (by simp [S.quit, e6]) ?_ (by simp [S.quit, e8]) (by simp [S.quit, e9]) ?_
+          (by simp [S.quit, e5]) (by simp [S.quit, e6]) (by simp [S.quit, e6]) ?_ (by simp [S.quit, e8]) (by simp [S.quit, e9]) ?_
         · intro _ hx
           simp only [S.quit, e7, e8]
           rcases hx with hx | hx
@@ -194,7 +196,7 @@ theorem good_setConn {s : S} {i : Nat} {c c' : Conn} (h : Good s) (hc : s.conns[
 
 /-- Shutdown's pc / todo / active change, connections and map stay -/
 theorem good_sh {s s' : S} (h : Good s) (hc : s'.conns = s.conns) (hm : s'.map = s.map)
-    (hln : s'.sh.pastClose = true → s'.lnOpen = false)
+    (hln : s'.sh.pastClose = true → s'.lnOpen = false) (hlo : s'.sh.pastClose = false → s'.lnOpen = true)
     (hrel : s'.sh.pastQuit = true → s'.stop.isSome = true ∨ ∃ e, s'.sv = .returned e)
     (hsv : s'.sh ≠ .idle → s'.sv ≠ .notStarted)
     (hinfl : s'.sh.rangingPhase = true → s'.active = 0 → ∀ (i : Nat) (c : Conn), s.conns[i]? = some c → c.inflight = false)
@@ -212,6 +214,7 @@ theorem good_sh {s s' : S} (h : Good s) (hc : s'.conns = s.conns) (hm : s'.map =
   · rw [hc, hm]; exact h.trk
   · rw [hc]; exact h.uniq
   · exact hln
+  · exact hlo
   · exact hrel
   · exact hsv
   · rw [hc]; exact hinfl
@@ -229,64 +232,64 @@ theorem countP_zero_get {l : List Conn} (h : l.countP Conn.inflight = 0) (i : Na
   cases hq : c.inflight <;> simp_all
 
 theorem good_shCall {s s' : S} (h : Good s) (hs : stepSh Cfg.fixed s .shCall = some s') : Good s' := by
-  have hL := h.lnc; have hR := h.rel; have hS := h.svr; have hI := h.infl; have hC := h.cov
+  have hL := h.lnc; have hLo := h.lno; have hR := h.rel; have hS := h.svr; have hI := h.infl; have hC := h.cov
   have hN := h.nil; have hW := h.wait; have hX := h.ctx; have hD := h.idle; have hT := h.todoOk; have hE := h.resume
   simp only [stepSh] at hs
   split at hs
   · cases hs; rename_i hg
     simp only [Bool.and_eq_true, decide_eq_true_eq, bne_iff_ne, ne_eq] at hg
-    refine good_sh h rfl rfl ?_ ?_ ?_ ?_ ?_ ?_ ?_ ?_ ?_ hT ?_ <;>
+    refine good_sh h rfl rfl ?_ ?_ ?_ ?_ ?_ ?_ ?_ ?_ ?_ ?_ hT ?_ <;>
       simp_all [Sh.pastClose, Sh.pastQuit, Sh.pastDetach, Sh.rangingPhase]
   · cases hs
 
 theorem good_shAgain {s s' : S} (h : Good s) (hs : stepSh Cfg.fixed s .shAgain = some s') : Good s' := by
-  have hL := h.lnc; have hR := h.rel; have hS := h.svr; have hI := h.infl; have hC := h.cov
+  have hL := h.lnc; have hLo := h.lno; have hR := h.rel; have hS := h.svr; have hI := h.infl; have hC := h.cov
   have hN := h.nil; have hW := h.wait; have hX := h.ctx; have hD := h.idle; have hT := h.todoOk; have hE := h.resume
   simp only [stepSh] at hs
   split at hs
   · cases hs
-    exact good_ctl h rfl rfl rfl rfl rfl (fun x => x) (fun _ x => x) (fun x => x) (fun x => x) hE
+    exact good_ctl h rfl rfl rfl rfl rfl (fun x => x) (fun x => x) (fun _ x => x) (fun x => x) (fun x => x) hE
   · cases hs
 
 theorem good_shQuit {s s' : S} (h : Good s) (hs : stepSh Cfg.fixed s .shQuit = some s') : Good s' := by
-  have hL := h.lnc; have hR := h.rel; have hS := h.svr; have hI := h.infl; have hC := h.cov
+  have hL := h.lnc; have hLo := h.lno; have hR := h.rel; have hS := h.svr; have hI := h.infl; have hC := h.cov
   have hN := h.nil; have hW := h.wait; have hX := h.ctx; have hD := h.idle; have hT := h.todoOk; have hE := h.resume
   simp only [stepSh] at hs
   split at hs
   · cases hs; rename_i hg
-    refine good_sh h rfl rfl ?_ ?_ ?_ ?_ ?_ ?_ ?_ ?_ ?_ hT ?_ <;>
+    refine good_sh h rfl rfl ?_ ?_ ?_ ?_ ?_ ?_ ?_ ?_ ?_ ?_ hT ?_ <;>
       simp_all [Sh.pastClose, Sh.pastQuit, Sh.pastDetach, Sh.rangingPhase, S.quit]
     cases hst : s.stop <;> simp
   · cases hs
 
 theorem good_shDetach {s s' : S} (h : Good s) (hs : stepSh Cfg.fixed s .shDetach = some s') : Good s' := by
-  have hL := h.lnc; have hR := h.rel; have hS := h.svr; have hI := h.infl; have hC := h.cov
+  have hL := h.lnc; have hLo := h.lno; have hR := h.rel; have hS := h.svr; have hI := h.infl; have hC := h.cov
   have hN := h.nil; have hW := h.wait; have hX := h.ctx; have hD := h.idle; have hT := h.todoOk; have hE := h.resume
   simp only [stepSh] at hs
   split at hs
   · cases hs; rename_i hg
     obtain ⟨e1, e2, e3, e4, e5, e6, e7, e8, e9, e10, e11, e12, e13, e14, e15⟩ := detachLn_fields s
-    refine good_sh h e1 e2 ?_ ?_ ?_ ?_ ?_ ?_ ?_ ?_ ?_ (by simp only [e4]; exact hT) ?_ <;>
+    refine good_sh h e1 e2 ?_ ?_ ?_ ?_ ?_ ?_ ?_ ?_ ?_ ?_ (by simp only [e4]; exact hT) ?_ <;>
       simp_all [Sh.pastClose, Sh.pastQuit, Sh.pastDetach, Sh.rangingPhase]
   · cases hs
 
 theorem good_shLnClose {s s' : S} (h : Good s) (hs : stepSh Cfg.fixed s .shLnClose = some s') : Good s' := by
-  have hL := h.lnc; have hR := h.rel; have hS := h.svr; have hI := h.infl; have hC := h.cov
+  have hL := h.lnc; have hLo := h.lno; have hR := h.rel; have hS := h.svr; have hI := h.infl; have hC := h.cov
   have hN := h.nil; have hW := h.wait; have hX := h.ctx; have hD := h.idle; have hT := h.todoOk; have hE := h.resume
   simp only [stepSh] at hs
   split at hs
   · cases hs; rename_i hg
-    refine good_sh h rfl rfl ?_ ?_ ?_ ?_ ?_ ?_ ?_ ?_ ?_ hT ?_ <;>
+    refine good_sh h rfl rfl ?_ ?_ ?_ ?_ ?_ ?_ ?_ ?_ ?_ ?_ hT ?_ <;>
       simp_all [Sh.pastClose, Sh.pastQuit, Sh.pastDetach, Sh.rangingPhase]
   · cases hs
 
 theorem good_shRound {s s' : S} (h : Good s) (hs : stepSh Cfg.fixed s .shRound = some s') : Good s' := by
-  have hL := h.lnc; have hR := h.rel; have hS := h.svr; have hI := h.infl; have hC := h.cov
+  have hL := h.lnc; have hLo := h.lno; have hR := h.rel; have hS := h.svr; have hI := h.infl; have hC := h.cov
   have hN := h.nil; have hW := h.wait; have hX := h.ctx; have hD := h.idle; have hT := h.todoOk; have hE := h.resume
   simp only [stepSh] at hs
   split at hs
   · cases hs; rename_i hg
-    refine good_sh h rfl rfl ?_ ?_ ?_ ?_ ?_ ?_ ?_ ?_ ?_ ?_ ?_ <;>
+    refine good_sh h rfl rfl ?_ ?_ ?_ ?_ ?_ ?_ ?_ ?_ ?_ ?_ ?_ ?_ <;>
       simp_all [Sh.pastClose, Sh.pastQuit, Sh.pastDetach, Sh.rangingPhase, Cfg.fixed]
     · intro ha i c hc; exact ha c (List.mem_iff_getElem?.mpr ⟨i, hc⟩)
     · intro _ f i hf
@@ -300,7 +303,7 @@ theorem good_shRound {s s' : S} (h : Good s) (hs : stepSh Cfg.fixed s .shRound =
   · cases hs
 
 theorem good_shObserve {s s' : S} (h : Good s) (hs : stepSh Cfg.fixed s .shObserve = some s') : Good s' := by
-  have hL := h.lnc; have hR := h.rel; have hS := h.svr; have hI := h.infl; have hC := h.cov
+  have hL := h.lnc; have hLo := h.lno; have hR := h.rel; have hS := h.svr; have hI := h.infl; have hC := h.cov
   have hN := h.nil; have hW := h.wait; have hX := h.ctx; have hD := h.idle; have hT := h.todoOk; have hE := h.resume
   simp only [stepSh] at hs
   split at hs
@@ -323,7 +326,7 @@ theorem good_shObserve {s s' : S} (h : Good s) (hs : stepSh Cfg.fixed s .shObser
             constructor <;> simp_all [Conn.snapNo]
           have hget : (s.conns.set i { c with sawIdle := true })[i]? = some { c with sawIdle := true } := by
             rw [get_set hc]; simp
-          refine good_sh h1 rfl rfl ?_ ?_ ?_ ?_ ?_ ?_ ?_ ?_ ?_ ?_ ?_ <;>
+          refine good_sh h1 rfl rfl ?_ ?_ ?_ ?_ ?_ ?_ ?_ ?_ ?_ ?_ ?_ ?_ <;>
             simp_all [Sh.pastClose, Sh.pastQuit, Sh.pastDetach, Sh.rangingPhase, S.setConn]
           · exact h1.infl (by simp [Sh.rangingPhase])
           · intro ha f j hf
@@ -335,12 +338,12 @@ theorem good_shObserve {s s' : S} (h : Good s) (hs : stepSh Cfg.fixed s .shObser
           · intro j hj
             exact h1.todoOk j (by simp; right; exact hj)
         · cases hs
-          refine good_sh h rfl rfl ?_ ?_ ?_ ?_ ?_ ?_ ?_ ?_ ?_ ?_ ?_ <;>
+          refine good_sh h rfl rfl ?_ ?_ ?_ ?_ ?_ ?_ ?_ ?_ ?_ ?_ ?_ ?_ <;>
             simp_all [Sh.pastClose, Sh.pastQuit, Sh.pastDetach, Sh.rangingPhase]
   · cases hs
 
 theorem good_shSkip {s s' : S} (h : Good s) (hs : stepSh Cfg.fixed s .shSkip = some s') : Good s' := by
-  have hL := h.lnc; have hR := h.rel; have hS := h.svr; have hI := h.infl; have hC := h.cov
+  have hL := h.lnc; have hLo := h.lno; have hR := h.rel; have hS := h.svr; have hI := h.infl; have hC := h.cov
   have hN := h.nil; have hW := h.wait; have hX := h.ctx; have hD := h.idle; have hT := h.todoOk; have hE := h.resume
   simp only [stepSh] at hs
   split at hs
@@ -350,7 +353,7 @@ theorem good_shSkip {s s' : S} (h : Good s) (hs : stepSh Cfg.fixed s .shSkip = s
     · rename_i i rest htd
       split at hs
       · cases hs; rename_i hnt
-        refine good_sh h rfl rfl ?_ ?_ ?_ ?_ ?_ ?_ ?_ ?_ ?_ ?_ ?_ <;>
+        refine good_sh h rfl rfl ?_ ?_ ?_ ?_ ?_ ?_ ?_ ?_ ?_ ?_ ?_ ?_ <;>
           simp_all [Sh.pastClose, Sh.pastQuit, Sh.pastDetach, Sh.rangingPhase]
         · exact hI
         · intro ha f j hf
@@ -362,7 +365,7 @@ theorem good_shSkip {s s' : S} (h : Good s) (hs : stepSh Cfg.fixed s .shSkip = s
   · cases hs
 
 theorem good_shClose {s s' : S} (h : Good s) (hs : stepSh Cfg.fixed s .shClose = some s') : Good s' := by
-  have hL := h.lnc; have hR := h.rel; have hS := h.svr; have hI := h.infl; have hC := h.cov
+  have hL := h.lnc; have hLo := h.lno; have hR := h.rel; have hS := h.svr; have hI := h.infl; have hC := h.cov
   have hN := h.nil; have hW := h.wait; have hX := h.ctx; have hD := h.idle; have hT := h.todoOk; have hE := h.resume
   simp only [stepSh] at hs
   split at hs
@@ -388,7 +391,7 @@ theorem good_shClose {s s' : S} (h : Good s) (hs : stepSh Cfg.fixed s .shClose =
             cases ho : c.fdOpen with
             | true => rfl
             | false => have := hcok.fdc.mpr ho; rw [hgd.2] at this; cases this
-        refine good_sh h1 rfl rfl ?_ ?_ ?_ ?_ ?_ ?_ ?_ ?_ ?_ ?_ ?_ <;>
+        refine good_sh h1 rfl rfl ?_ ?_ ?_ ?_ ?_ ?_ ?_ ?_ ?_ ?_ ?_ ?_ <;>
           simp_all [Sh.pastClose, Sh.pastQuit, Sh.pastDetach, Sh.rangingPhase, S.setConn]
         · exact h1.infl (by simp [Sh.rangingPhase])
         · intro ha f j hf
@@ -403,7 +406,7 @@ theorem good_shClose {s s' : S} (h : Good s) (hs : stepSh Cfg.fixed s .shClose =
           refine good_setConn h hc ?_ rfl (fun x => x) (fun x => x) (fun x => x) (fun x => x) (by simp [Conn.live])
           obtain ⟨a1, a2, a3, a4, a5, a6, a7⟩ := hcok
           constructor <;> simp_all [Conn.snapNo]
-        refine good_sh h1 rfl rfl ?_ ?_ ?_ ?_ ?_ ?_ ?_ ?_ ?_ ?_ ?_ <;>
+        refine good_sh h1 rfl rfl ?_ ?_ ?_ ?_ ?_ ?_ ?_ ?_ ?_ ?_ ?_ ?_ <;>
           simp_all [Sh.pastClose, Sh.pastQuit, Sh.pastDetach, Sh.rangingPhase, S.setConn]
         · exact h1.infl (by simp [Sh.rangingPhase])
         · intro ha f j hf
@@ -416,7 +419,7 @@ theorem good_shClose {s s' : S} (h : Good s) (hs : stepSh Cfg.fixed s .shClose =
   · cases hs
 
 theorem good_shTornDown {s s' : S} (h : Good s) (hs : stepSh Cfg.fixed s .shTornDown = some s') : Good s' := by
-  have hL := h.lnc; have hR := h.rel; have hS := h.svr; have hI := h.infl; have hC := h.cov
+  have hL := h.lnc; have hLo := h.lno; have hR := h.rel; have hS := h.svr; have hI := h.infl; have hC := h.cov
   have hN := h.nil; have hW := h.wait; have hX := h.ctx; have hD := h.idle; have hT := h.todoOk; have hE := h.resume
   simp only [stepSh] at hs
   split at hs
@@ -425,7 +428,7 @@ theorem good_shTornDown {s s' : S} (h : Good s) (hs : stepSh Cfg.fixed s .shTorn
     · rename_i c hc
       split at hs
       · cases hs
-        refine good_sh h rfl rfl ?_ ?_ ?_ ?_ ?_ ?_ ?_ ?_ ?_ ?_ ?_ <;>
+        refine good_sh h rfl rfl ?_ ?_ ?_ ?_ ?_ ?_ ?_ ?_ ?_ ?_ ?_ ?_ <;>
           simp_all [Sh.pastClose, Sh.pastQuit, Sh.pastDetach, Sh.rangingPhase]
         · exact hI
         · exact hC
@@ -434,18 +437,18 @@ theorem good_shTornDown {s s' : S} (h : Good s) (hs : stepSh Cfg.fixed s .shTorn
   · cases hs
 
 theorem good_shRecheck {s s' : S} (h : Good s) (hs : stepSh Cfg.fixed s .shRecheck = some s') : Good s' := by
-  have hL := h.lnc; have hR := h.rel; have hS := h.svr; have hI := h.infl; have hC := h.cov
+  have hL := h.lnc; have hLo := h.lno; have hR := h.rel; have hS := h.svr; have hI := h.infl; have hC := h.cov
   have hN := h.nil; have hW := h.wait; have hX := h.ctx; have hD := h.idle; have hT := h.todoOk; have hE := h.resume
   simp only [stepSh] at hs
   split at hs
   · rename_i i hg
     split at hs
     · cases hs
-      refine good_sh h rfl rfl ?_ ?_ ?_ ?_ ?_ ?_ ?_ ?_ ?_ ?_ ?_ <;>
+      refine good_sh h rfl rfl ?_ ?_ ?_ ?_ ?_ ?_ ?_ ?_ ?_ ?_ ?_ ?_ <;>
         simp_all [Sh.pastClose, Sh.pastQuit, Sh.pastDetach, Sh.rangingPhase]
     · cases hs; rename_i hnt
       simp only [Cfg.fixed, Bool.true_and, Bool.not_eq_true] at hnt
-      refine good_sh h rfl rfl ?_ ?_ ?_ ?_ ?_ ?_ ?_ ?_ ?_ ?_ ?_ <;>
+      refine good_sh h rfl rfl ?_ ?_ ?_ ?_ ?_ ?_ ?_ ?_ ?_ ?_ ?_ ?_ <;>
         simp_all [Sh.pastClose, Sh.pastQuit, Sh.pastDetach, Sh.rangingPhase]
       · exact hI
       · intro ha f j hf
@@ -456,7 +459,7 @@ theorem good_shRecheck {s s' : S} (h : Good s) (hs : stepSh Cfg.fixed s .shReche
   · cases hs
 
 theorem good_shEnd {s s' : S} (h : Good s) (hs : stepSh Cfg.fixed s .shEnd = some s') : Good s' := by
-  have hL := h.lnc; have hR := h.rel; have hS := h.svr; have hI := h.infl; have hC := h.cov
+  have hL := h.lnc; have hLo := h.lno; have hR := h.rel; have hS := h.svr; have hI := h.infl; have hC := h.cov
   have hN := h.nil; have hW := h.wait; have hX := h.ctx; have hD := h.idle; have hT := h.todoOk; have hE := h.resume
   simp only [stepSh] at hs
   split at hs
@@ -464,7 +467,7 @@ theorem good_shEnd {s s' : S} (h : Good s) (hs : stepSh Cfg.fixed s .shEnd = som
     simp only [Bool.and_eq_true, decide_eq_true_eq] at hg
     split at hs
     · cases hs; rename_i ha
-      refine good_sh h rfl rfl ?_ ?_ ?_ ?_ ?_ ?_ ?_ ?_ ?_ ?_ ?_ <;>
+      refine good_sh h rfl rfl ?_ ?_ ?_ ?_ ?_ ?_ ?_ ?_ ?_ ?_ ?_ ?_ <;>
         simp_all [Sh.pastClose, Sh.pastQuit, Sh.pastDetach, Sh.rangingPhase]
       refine ⟨?_, hI⟩
       intro f
@@ -472,28 +475,28 @@ theorem good_shEnd {s s' : S} (h : Good s) (hs : stepSh Cfg.fixed s .shEnd = som
       | none => rfl
       | some j => exact absurd hq (hC f j)
     · cases hs; rename_i ha
-      refine good_sh h rfl rfl ?_ ?_ ?_ ?_ ?_ ?_ ?_ ?_ ?_ ?_ ?_ <;>
+      refine good_sh h rfl rfl ?_ ?_ ?_ ?_ ?_ ?_ ?_ ?_ ?_ ?_ ?_ ?_ <;>
         simp_all [Sh.pastClose, Sh.pastQuit, Sh.pastDetach, Sh.rangingPhase]
       omega
   · cases hs
 
 theorem good_shTick {s s' : S} (h : Good s) (hs : stepSh Cfg.fixed s .shTick = some s') : Good s' := by
-  have hL := h.lnc; have hR := h.rel; have hS := h.svr; have hI := h.infl; have hC := h.cov
+  have hL := h.lnc; have hLo := h.lno; have hR := h.rel; have hS := h.svr; have hI := h.infl; have hC := h.cov
   have hN := h.nil; have hW := h.wait; have hX := h.ctx; have hD := h.idle; have hT := h.todoOk; have hE := h.resume
   simp only [stepSh] at hs
   split at hs
   · cases hs
-    refine good_sh h rfl rfl ?_ ?_ ?_ ?_ ?_ ?_ ?_ ?_ ?_ ?_ ?_ <;>
+    refine good_sh h rfl rfl ?_ ?_ ?_ ?_ ?_ ?_ ?_ ?_ ?_ ?_ ?_ ?_ <;>
       simp_all [Sh.pastClose, Sh.pastQuit, Sh.pastDetach, Sh.rangingPhase]
   · cases hs
 
 theorem good_shCtx {s s' : S} (h : Good s) (hs : stepSh Cfg.fixed s .shCtx = some s') : Good s' := by
-  have hL := h.lnc; have hR := h.rel; have hS := h.svr; have hI := h.infl; have hC := h.cov
+  have hL := h.lnc; have hLo := h.lno; have hR := h.rel; have hS := h.svr; have hI := h.infl; have hC := h.cov
   have hN := h.nil; have hW := h.wait; have hX := h.ctx; have hD := h.idle; have hT := h.todoOk; have hE := h.resume
   simp only [stepSh] at hs
   split at hs
   · cases hs
-    refine good_sh h rfl rfl ?_ ?_ ?_ ?_ ?_ ?_ ?_ ?_ ?_ ?_ ?_ <;>
+    refine good_sh h rfl rfl ?_ ?_ ?_ ?_ ?_ ?_ ?_ ?_ ?_ ?_ ?_ ?_ <;>
       simp_all [Sh.pastClose, Sh.pastQuit, Sh.pastDetach, Sh.rangingPhase]
   · cases hs
 
@@ -528,10 +531,10 @@ theorem good_step {s s' : S} {a : Act} (h : Good s) (hs : step Cfg.fixed s a = s
         cases hq : s.sh <;> first | rfl | (exact absurd hsv (h.svr (by rw [hq]; simp)))
       split at hs
       · cases hs
-        exact good_ctl h rfl rfl rfl rfl rfl (fun x => x) (by rw [hidle]; simp [Sh.pastQuit]) (fun _ => by simp)
+        exact good_ctl h rfl rfl rfl rfl rfl (fun x => x) (fun x => x) (by rw [hidle]; simp [Sh.pastQuit]) (fun _ => by simp)
           (fun x => x) (fun _ => Or.inl rfl)
       · cases hs
-        refine good_ctl h rfl rfl rfl rfl rfl (fun x => x) (by rw [hidle]; simp [Sh.pastQuit]) (fun _ => by simp [S.quit])
+        refine good_ctl h rfl rfl rfl rfl rfl (fun x => x) (fun x => x) (by rw [hidle]; simp [Sh.pastQuit]) (fun _ => by simp [S.quit])
           (fun x => x) ?_
         intro hr
         simp only [S.quit] at hr ⊢
@@ -545,7 +548,7 @@ theorem good_step {s s' : S} {a : Act} (h : Good s) (hs : step Cfg.fixed s a = s
     split at hs
     · split at hs
       · cases hs
-        exact good_ctl h rfl rfl rfl rfl rfl (fun x => x) (fun _ _ => Or.inr ⟨_, rfl⟩) (fun _ => by simp) (fun x => x) h.resume
+        exact good_ctl h rfl rfl rfl rfl rfl (fun x => x) (fun x => x) (fun _ _ => Or.inr ⟨_, rfl⟩) (fun _ => by simp) (fun x => x) h.resume
       · cases hs
     · cases hs
   · -- pAccept
@@ -558,7 +561,7 @@ theorem good_step {s s' : S} {a : Act} (h : Good s) (hs : step Cfg.fixed s a = s
     · cases hs
   · -- ctxExpire
     cases hs
-    exact good_ctl h rfl rfl rfl rfl rfl (fun x => x) (fun _ x => x) (fun x => x) (fun _ => rfl) h.resume
+    exact good_ctl h rfl rfl rfl rfl rfl (fun x => x) (fun x => x) (fun _ x => x) (fun x => x) (fun _ => rfl) h.resume
   · -- connection-level or Shutdown
     split at hs
     · split at hs
@@ -574,6 +577,21 @@ theorem good_run {s s' : S} {as : List Act} (h : Good s) (hr : run Cfg.fixed s a
     split at hr
     · rename_i s1 hs; exact ih (good_step h hs) hr
     · cases hr
+
+theorem run_snoc (cfg : Cfg) (s : S) (as : List Act) (a : Act) :
+    run cfg s (as ++ [a]) = (run cfg s as).bind (fun s1 => step cfg s1 a) := by
+  induction as generalizing s with
+  | nil => simp only [List.nil_append, run, Option.bind]; cases h : step cfg s a <;> simp [run]
+  | cons b bs ih =>
+    simp only [List.cons_append, run]
+    cases step cfg s b with
+    | none => rfl
+    | some s1 => exact ih s1
+
+theorem reachable_step {cfg : Cfg} {s s' : S} {a : Act} (hr : Reachable cfg s) (hs : step cfg s a = some s') :
+    Reachable cfg s' := by
+  obtain ⟨as, has⟩ := hr
+  exact ⟨as ++ [a], by rw [run_snoc, has]; exact hs⟩
 
 /-- the invariant holds in every reachable state of the fixed code -/
 theorem good_reachable {s : S} (hr : Reachable Cfg.fixed s) : Good s := by
